@@ -8,6 +8,51 @@ sys.path.insert(0, os.path.dirname(os.path.abspath(__file__)))
 import common  # noqa: E402
 
 
+def supervise(argv, prop, tier):
+    """Run the check in a child process and watch the case it has in hand (common.note_case): a child that sits on one
+    noted input for longer than STALL_S seconds is inside an implementation call that does not come back (it holds the
+    interpreter lock, so nothing inside that process can say so).  The child is killed and the noted input reported."""
+    import subprocess
+    import time
+    os.makedirs(common.BUILD, exist_ok=True)
+    crumb = os.path.join(common.BUILD, 'crumb-%s-%d.json' % (prop, os.getpid()))
+    env = dict(os.environ, VERIF_CHILD='1', VERIF_CRUMB=crumb)
+    child = subprocess.Popen([sys.executable, '-B', os.path.abspath(__file__)] + list(argv), env=env)
+    try:
+        while True:
+            try:
+                return child.wait(timeout=2)
+            except subprocess.TimeoutExpired:
+                pass
+            try:
+                age = time.time() - os.stat(crumb).st_mtime
+            except OSError:
+                continue
+            if age > common.STALL_S:
+                try:
+                    case = json.load(open(crumb))
+                except Exception:  # noqa
+                    case = None
+                child.kill()
+                child.wait()
+                os.makedirs(common.REPLAYS, exist_ok=True)
+                path = os.path.join(common.REPLAYS, '%s-stalled.json' % prop)
+                with open(path, 'w') as f:
+                    json.dump(dict(property=prop, tier=tier, kind='implementation-does-not-return',
+                                   detail='the implementation was given this input and did not come back within %d s '
+                                          '(the provider thread would sit in that call: it neither polls the transport '
+                                          'nor its timer nor the stop request)' % common.STALL_S,
+                                   case=case), f, indent=1)
+                print('FAIL %s %s: the implementation did not return from a call within %d s' % (prop, tier, common.STALL_S))
+                print('VIOLATION property=%s replay=%s' % (prop, path))
+                return 1
+    finally:
+        try:
+            os.remove(crumb)
+        except OSError:
+            pass
+
+
 def main(argv):
     if argv and argv[0] == '--setup':
         rc, out = common.ensure_static(verbose=True)
@@ -26,6 +71,8 @@ def main(argv):
         return 2
     prop = argv[0]
     tier = argv[1] if len(argv) > 1 else os.environ.get('VERIF_TIER', 'quick')
+    if not os.environ.get('VERIF_CHILD'):
+        return supervise(argv, prop, tier)
     try:
         common.setup_env()
         mod = importlib.import_module('check_' + prop)
